@@ -79,15 +79,17 @@ def Sections.env (s : Sections) (selfNames : List Nat) (selfRec : Val) : Env :=
 
 def dropLastStep (p : List Step) : List Step := p.dropLast
 
+/-- the path of a refresh destination, given the path of the record that holds the pushed retriever -/
+def Dest.path (recPath : List Step) : Dest → List Step
+  | .self i => recPath ++ [Step.fld i]
+  | .sec sc i => [Step.fld sc, Step.fld i]
+
 /-- run the refresh actions of a retriever that was just pushed (`handle_retriever_dependency(retriever, "commit", …)`) -/
 def applyActs (acts : List RefreshAct) (recPath : List Step) (recNames : List Nat) (s : Sections) : Except Err Sections :=
   acts.foldlM (fun (s : Sections) (a : RefreshAct) => do
     let selfRec ← match getAt recPath s.root with | some v => pure v | none => throw Err.attr
     let v ← a.expr.eval (s.env recNames selfRec)
-    let dest : List Step := match a.dest with
-      | .self i => recPath ++ [Step.fld i]
-      | .sec sc i => [Step.fld sc, Step.fld i]
-    match (setAt dest s.root v).bind s.withRoot with
+    match (setAt (a.dest.path recPath) s.root v).bind s.withRoot with
     | some s' => pure s'
     | none => throw Err.attr) s
 
